@@ -44,6 +44,7 @@ def c05_worker(item):
     res = Res()
     cfg = wsgen.GenConfig(p_fail=0.75, max_patches=r.choice([2, 4, 6, 8]))
     cfg.p_second_fail = 0.3
+    cfg.p_early_poison = 0.4
     shape_x = r.random()
     if shape_x < 0.015:
         ws = wsgen.generate_long(seed, r.randint(101, 130), p_fail=0.5)      # more patches than the default backup window
@@ -97,9 +98,16 @@ def c05_worker(item):
             res.count("runs-with--p")
         if use_d:
             run_cwd = scr
-            args = ["-d", "ws"] + args
+            args = ["-d", r.choice(["ws", "ws/", "./ws", work, work + "/"])] + args
             res.count("runs-with--d")
-        rr = runner.run_rq(binary, run_cwd, args)
+        env_extra = None
+        if "--threads" in args and r.random() < 0.1:
+            # the thread count from the environment instead of the option
+            i = args.index("--threads")
+            env_extra = {"RAPIDQUILT_THREADS": args[i + 1]}
+            args = args[:i] + args[i + 2:]
+            res.count("runs-with-RAPIDQUILT_THREADS")
+        rr = runner.run_rq(binary, run_cwd, args, env_extra=env_extra)
         if patches_dir != "patches":
             # put the patches back where the observation code expects its inputs
             os.rename(os.path.join(work, patches_dir), os.path.join(work, "patches"))
@@ -153,6 +161,8 @@ def c05_worker(item):
                     res.count("failing-patch-not-first")
                 if multi:
                     res.count("multi-file-failing-patch")
+                if fp.early_poison:
+                    res.count("failing-file-patch-followed-by-another-for-the-same-file:verbosity=%s" % (verbosity or "default"))
             else:
                 res.count("runs-applying-everything")
         if seed % 500 == 1:
@@ -970,8 +980,9 @@ def c14_worker(item):
     r = random.Random(seed * 982451653 + 14)
     res = Res()
     shape = r.choice(["plain", "plain", "plain", "empty-source", "empty-patch", "empty-series", "all-applied", "goal-applied", "symlinked-source", "symlinked-patch",
-                      "many-files-low-fd-limit"])
+                      "many-files-low-fd-limit", "page-multiple-source"])
     cfg = wsgen.GenConfig(p_fail=0.5, max_patches=r.choice([1, 3, 6]))
+    cfg.p_early_poison = 0.4
     ws = wsgen.generate(seed, cfg)
     first = 0
     goal = ["-a"]
@@ -980,6 +991,24 @@ def c14_worker(item):
         # more files and patches than the process may have open at once: a loader must not hold on to descriptors
         nofile = 48
         ws = wsgen.generate_long(seed, r.randint(70, 90), nfiles=60, p_fail=0.2)
+    if shape == "page-multiple-source":
+        # files whose size is an exact multiple of the page size (nothing after the last byte of a mapping)
+        cfg2 = wsgen.GenConfig(p_fail=0.3, max_patches=r.choice([1, 3]), max_files=3)
+        cfg2.kinds = ["modify"] * 6 + ["delete", "truncate", "chmod"]
+        ws = wsgen.generate(seed, cfg2)
+        t0 = {}
+        for pth, (data, mode) in ws.trees[0].items():
+            page = r.choice([4096, 8192])
+            # prepend a padding line so that the patches (exact diffs of the unpadded content) still apply with an offset... no:
+            # keep ground truth out of it (C14 is a differential) and pad at the END with a line of the right length
+            padlen = (-(len(data) + 1)) % page
+            pad = b"p" * padlen + b"\n"
+            if not data.endswith(b"\n") and data:
+                data = data + b"\n"
+                padlen = (-(len(data) + 1)) % page
+                pad = b"p" * padlen + b"\n"
+            t0[pth] = (data + pad, mode)
+        ws.trees[0] = t0
     if shape == "empty-source":
         # an existing zero-length file that a patch fills, and one that is only renamed / chmod-ed
         for t in ws.trees:
@@ -1087,6 +1116,8 @@ def c14_worker(item):
             res["nontrivial"].append(case_key(cli.ws_shape_key(ws), shape, tuple(variant), threads, backup, tuple(goal)))
         if r1.rc == 1:
             res.count("failing-series")
+            if ws.fail_at is not None and ws.patches[ws.fail_at].early_poison:
+                res.count("failing-file-patch-followed-by-another-for-the-same-file")
         if seed % 300 == 19:
             res["sample"] = {"workspace": ws.describe(), "shape": shape, "baseline": base, "variant": var, "exit": r1.rc}
         del ntouched
